@@ -4,7 +4,7 @@ import itertools
 from harness.core import Rng, gz, glist, Dec
 
 PID = "C13"
-VO = ["theories/Misc/Merge.vo", "theories/Misc/Merge_proofs.vo", "theories/Misc/MergeGen.vo",
+VO = ["theories/Misc/Merge.vo", "theories/Misc/Merge_proofs.vo", "theories/Misc/MergeGen.vo", "theories/Misc/MergeNecessity.vo",
       "theories/Misc/MergeSrc.vo", "theories/Misc/MergeSrc_proofs.vo", "theories/Base/Flat.vo"]
 PROPS_FILES = ["props/C13.v"]
 TRANSLATORS = ["t_merge"]
